@@ -55,6 +55,17 @@ CHECKS = {
         note='Trusted: z3, symx, vf/oracle.py. Bounds: pattern <= 3/4, instance <= 4, values <= 2, equation lists <= 2, notation arguments <= 2/3 nodes.',
         design='DESIGN.md 5 C13',
     ),
+    'C09': dict(
+        text='Every propositional formula up to the bound goes through the real prover and each normal-form stage (on generated ConjForm trees as well); z3 decides over all truth assignments whether the formula is a tautology or unsatisfiable and whether a stage output is equivalent to its input, the returned proofs must conclude literally the pattern / its negation / the stage implications, and small proofs are replayed on a stateful interpreter. The resolution kernel is checked on every ordered clause list up to the bound.',
+        note='Trusted: z3, vf/oracle.py expansion. Weakest fit of the technique among the claimed properties: metavariable ids must stay concrete, so the implementation side is covered by exhaustive forking and the solver decides the semantic oracle. Bounds: formulas <= 4/6 nodes over 2 metavariables (+ implication-only up to 5/7 nodes), ConjForm trees <= 4/5 leaves, clause lists <= 3/4 clauses.',
+        design='DESIGN.md 5 C09',
+        technique='exhaustive bounded forking over formulas (symx) with z3 deciding tautology/unsatisfiability/equivalence over all assignments; replay of returned proofs',
+    ),
+    'C10': dict(
+        text='All public methods of the two libraries with a docstring schema (82, found by inspect at run time) are executed symbolically on argument patterns of every kind with symbolic ids, premise thunks being axioms of the instantiated premise schema (as written and under two layers of transparent notation): advertised conclusion, replayed conclusion and the docstring schema instantiated by an independent oracle must coincide on every path, and the replay may use only prop1-3, modus ponens, instantiate and declared axioms.',
+        note='Trusted: z3, symx, vf/oracle.py, my docstring grammar (unparseable docstrings are listed as not covered, never guessed). Bounds: argument patterns of 1 node (quick) / 2 nodes (thorough, smaller profile for >= 3 letters).',
+        design='DESIGN.md 5 C10',
+    ),
     'C14': dict(
         text='Serialiser and deserialiser are executed symbolically back to back on call sequences (all ids/operands symbolic and flowing through both): the fresh interpreter must end in the same stack, memory and claims and re-emit the same bytes; every truncation of an emitted stream inside an instruction and a list of invalid opcodes at every instruction start must raise.',
         note='Trusted: z3, symx, my instruction-boundary decoder (operand layout only). Bounds: <= 3-4 calls (quick) / 4-6 (thorough); opcode bytes concrete, operands symbolic.',
@@ -65,8 +76,6 @@ CHECKS = {
 NOT_YET = {
     'C02': 'check under construction in this session; not claimed until it runs',
     'C08': 'check under construction in this session; not claimed until it runs',
-    'C09': 'check under construction in this session; not claimed until it runs',
-    'C10': 'check under construction in this session; not claimed until it runs',
     'C15': 'check under construction in this session; not claimed until it runs',
     'C18': 'check under construction in this session; not claimed until it runs',
     'C19': 'check under construction in this session; not claimed until it runs',
